@@ -249,9 +249,10 @@ Section Sections.
         | DQuote lr bs =>
             do st <- add_node st KQuote;
             let st := set_lines_range st lr in
-            (* a nested SectionsBuilder on a fresh builder at the quote; its nodes_map is dropped *)
+            (* sections_builder.rs:192-205: a nested SectionsBuilder on a fresh builder at the quote;
+               its nodes_map is appended to the outer one after the quote's own entry (pre-order) *)
             do inner <- process_blocks f bs (B (b_arena st) (b_cur st) true []);
-            Ok (B (b_arena inner) (b_cur st) (b_insert st) (b_map st))
+            Ok (B (b_arena inner) (b_cur st) (b_insert st) (b_map st ++ b_map inner))
         | DRule lr => do st <- add_node st KRule; Ok (set_lines_range st lr)
         | DHeader _ _ _ => Panic "Unexpected block type, headers should be process outside of this block"
         | DTable lr h al rows =>
